@@ -382,8 +382,12 @@ func c12Gen(r *Rng, tier string, n int) []Case {
 	if os.Getenv("C12_ONLY") == "exp" { // development aid: only the expansion programs
 		return c12GenExp(r.Fork(), n)
 	}
+	if os.Getenv("C12_ONLY") == "ir" {
+		return c12GenIR(r.Fork(), n)
+	}
 	out = append(out, c12GenMatch(r.Fork(), tier, n/2)...)
 	out = append(out, c12GenPat(r.Fork(), n/10)...)
+	out = append(out, c12GenIR(r.Fork(), n/2)...)
 	out = append(out, c12GenExp(r.Fork(), n)...)
 	return out
 }
